@@ -24,7 +24,11 @@ fn any_player() -> PlayerNum {
 
 fn leaf_or_decision(who: PlayerNum, expand: bool) -> Node {
     if expand {
-        Node::Player(Player { num: who, infoset: 0, actions: Box::new([Node::Terminal(1.0), Node::Terminal(-1.0)]) as Box<[Node]> })
+        Node::Player(Player {
+            num: who,
+            infoset: 0,
+            actions: Box::new([Node::Terminal(1.0), Node::Terminal(-1.0)]) as Box<[Node]>,
+        })
     } else {
         Node::Terminal(0.0)
     }
@@ -67,17 +71,39 @@ type Task<'a> = (&'a Node, f64, [f64; 2]);
 /// outside the encoding): the driver hands exactly `queue` to the pool and reuses both vectors in the
 /// next iteration, so a call must not leave anything behind in `work`.
 fn leaves_no_work(t: usize) {
-    let a = Node::Player(Player { num: PlayerNum::Two, infoset: 0, actions: Box::new([Node::Terminal(1.0), Node::Terminal(-1.0)]) as Box<[Node]> });
-    let b = Node::Player(Player { num: PlayerNum::Two, infoset: 0, actions: Box::new([Node::Terminal(3.0), Node::Terminal(-3.0)]) as Box<[Node]> });
-    let root = Node::Player(Player { num: PlayerNum::One, infoset: 0, actions: Box::new([a, b]) as Box<[Node]> });
+    let a = Node::Player(Player {
+        num: PlayerNum::Two,
+        infoset: 0,
+        actions: Box::new([Node::Terminal(1.0), Node::Terminal(-1.0)]) as Box<[Node]>,
+    });
+    let b = Node::Player(Player {
+        num: PlayerNum::Two,
+        infoset: 0,
+        actions: Box::new([Node::Terminal(3.0), Node::Terminal(-3.0)]) as Box<[Node]>,
+    });
+    let root = Node::Player(Player {
+        num: PlayerNum::One,
+        infoset: 0,
+        actions: Box::new([a, b]) as Box<[Node]>,
+    });
     let chance: [FullChance<'static>; 0] = [];
     let mut p1 = [minfo(q4pos())];
     let mut p2 = [minfo(q4pos())];
     let target = NonZeroUsize::new(t).unwrap();
     let mut queue: Vec<Task> = Vec::with_capacity(4);
     let mut work: Vec<Task> = Vec::with_capacity(4);
-    thread_threshold(&root, &chance[..], [&mut p1[..], &mut p2[..]], target, &mut queue, &mut work);
-    kani::cover!(queue.len() + work.len() >= 1, "call returned with a non-empty frontier");
+    thread_threshold(
+        &root,
+        &chance[..],
+        [&mut p1[..], &mut p2[..]],
+        target,
+        &mut queue,
+        &mut work,
+    );
+    kani::cover!(
+        queue.len() + work.len() >= 1,
+        "call returned with a non-empty frontier"
+    );
     assert!(work.is_empty(), "C06 workspace: nodes left in the work list are not handed to the pool and leak into the next iteration");
     core::mem::forget(queue);
     core::mem::forget(work);
@@ -112,10 +138,18 @@ fn c06_thread_threshold_leaves_no_work_t4() {
 /// no node twice, no task below another task, and tasks + unexpanded rest stay within the target.
 fn cut(t: usize) {
     let wa = any_player();
-    let a = Node::Player(Player { num: wa, infoset: 0, actions: Box::new([Node::Terminal(1.0), Node::Terminal(-1.0)]) as Box<[Node]> });
+    let a = Node::Player(Player {
+        num: wa,
+        infoset: 0,
+        actions: Box::new([Node::Terminal(1.0), Node::Terminal(-1.0)]) as Box<[Node]>,
+    });
     let b = Node::Terminal(2.0);
     let wr = any_player();
-    let root = Node::Player(Player { num: wr, infoset: 0, actions: Box::new([a, b]) as Box<[Node]> });
+    let root = Node::Player(Player {
+        num: wr,
+        infoset: 0,
+        actions: Box::new([a, b]) as Box<[Node]>,
+    });
     let chance: [FullChance<'static>; 0] = [];
     let st = [q4pos(), q4pos()];
     let mut p1 = [minfo(st[0])];
@@ -123,7 +157,14 @@ fn cut(t: usize) {
     let target = NonZeroUsize::new(t).unwrap();
     let mut queue: Vec<Task> = Vec::with_capacity(4);
     let mut work: Vec<Task> = Vec::with_capacity(4);
-    thread_threshold(&root, &chance[..], [&mut p1[..], &mut p2[..]], target, &mut queue, &mut work);
+    thread_threshold(
+        &root,
+        &chance[..],
+        [&mut p1[..], &mut p2[..]],
+        target,
+        &mut queue,
+        &mut work,
+    );
     let s = [[st[0], 1.0 - st[0]], [st[1], 1.0 - st[1]]];
     let k1 = kids(&root).unwrap();
     let k2 = kids(&k1[0]).unwrap();
@@ -134,28 +175,46 @@ fn cut(t: usize) {
     let mut qi = 0;
     while qi < queue.len() {
         let (n, pc, pp) = queue[qi];
-        assert!(pc == 1.0, "C06 frontier: chance reach of a task changed without a chance node");
+        assert!(
+            pc == 1.0,
+            "C06 frontier: chance reach of a task changed without a chance node"
+        );
         let mut found = false;
         if core::ptr::eq(n, &root) {
             found = true;
-            assert!(!seen_root, "C06 frontier: the same node is scheduled twice in one iteration");
+            assert!(
+                !seen_root,
+                "C06 frontier: the same node is scheduled twice in one iteration"
+            );
             seen_root = true;
-            assert!(pp[0] == 1.0 && pp[1] == 1.0, "C06 frontier: task reach is not its path's reach under the current strategies");
+            assert!(
+                pp[0] == 1.0 && pp[1] == 1.0,
+                "C06 frontier: task reach is not its path's reach under the current strategies"
+            );
         }
         for i in 0..2 {
             let r1 = step(&root, i, [1.0, 1.0], s);
             if core::ptr::eq(n, &k1[i]) {
                 found = true;
-                assert!(!seen1[i], "C06 frontier: the same node is scheduled twice in one iteration");
+                assert!(
+                    !seen1[i],
+                    "C06 frontier: the same node is scheduled twice in one iteration"
+                );
                 seen1[i] = true;
-                assert!(pp[0] == r1[0] && pp[1] == r1[1], "C06 frontier: task reach is not its path's reach under the current strategies");
+                assert!(
+                    pp[0] == r1[0] && pp[1] == r1[1],
+                    "C06 frontier: task reach is not its path's reach under the current strategies"
+                );
             }
             if i == 0 {
                 for j in 0..2 {
                     let r2 = step(&k1[0], j, r1, s);
                     if core::ptr::eq(n, &k2[j]) {
                         found = true;
-                        assert!(!seen2[j], "C06 frontier: the same node is scheduled twice in one iteration");
+                        assert!(
+                            !seen2[j],
+                            "C06 frontier: the same node is scheduled twice in one iteration"
+                        );
                         seen2[j] = true;
                         assert!(pp[0] == r2[0] && pp[1] == r2[1], "C06 frontier: task reach is not its path's reach under the current strategies");
                     }
@@ -165,8 +224,14 @@ fn cut(t: usize) {
         assert!(found, "C06 frontier: task is not a node of the tree");
         qi += 1;
     }
-    assert!(!(seen_root && (seen1[0] || seen1[1] || seen2[0] || seen2[1])), "C06 frontier: a task lies below another task");
-    assert!(!(seen1[0] && (seen2[0] || seen2[1])), "C06 frontier: a task lies below another task");
+    assert!(
+        !(seen_root && (seen1[0] || seen1[1] || seen2[0] || seen2[1])),
+        "C06 frontier: a task lies below another task"
+    );
+    assert!(
+        !(seen1[0] && (seen2[0] || seen2[1])),
+        "C06 frontier: a task lies below another task"
+    );
     core::mem::forget(queue);
     core::mem::forget(work);
     core::mem::forget(root);
@@ -183,9 +248,21 @@ fn cut(t: usize) {
 fn c06_thread_threshold_cut_two_levels() {
     let wr = any_player();
     let wk = any_player();
-    let a = Node::Player(Player { num: wk, infoset: 0, actions: Box::new([Node::Terminal(1.0), Node::Terminal(-1.0)]) as Box<[Node]> });
-    let b = Node::Player(Player { num: wk, infoset: 0, actions: Box::new([Node::Terminal(3.0), Node::Terminal(-3.0)]) as Box<[Node]> });
-    let root = Node::Player(Player { num: wr, infoset: 0, actions: Box::new([a, b]) as Box<[Node]> });
+    let a = Node::Player(Player {
+        num: wk,
+        infoset: 0,
+        actions: Box::new([Node::Terminal(1.0), Node::Terminal(-1.0)]) as Box<[Node]>,
+    });
+    let b = Node::Player(Player {
+        num: wk,
+        infoset: 0,
+        actions: Box::new([Node::Terminal(3.0), Node::Terminal(-3.0)]) as Box<[Node]>,
+    });
+    let root = Node::Player(Player {
+        num: wr,
+        infoset: 0,
+        actions: Box::new([a, b]) as Box<[Node]>,
+    });
     let chance: [FullChance<'static>; 0] = [];
     let st = [q4pos(), q4pos()];
     let mut p1 = [minfo(st[0])];
@@ -193,22 +270,38 @@ fn c06_thread_threshold_cut_two_levels() {
     let target = NonZeroUsize::new(3).unwrap();
     let mut queue: Vec<Task> = Vec::with_capacity(4);
     let mut work: Vec<Task> = Vec::with_capacity(4);
-    thread_threshold(&root, &chance[..], [&mut p1[..], &mut p2[..]], target, &mut queue, &mut work);
+    thread_threshold(
+        &root,
+        &chance[..],
+        [&mut p1[..], &mut p2[..]],
+        target,
+        &mut queue,
+        &mut work,
+    );
     let s = [[st[0], 1.0 - st[0]], [st[1], 1.0 - st[1]]];
     let k1 = kids(&root).unwrap();
     kani::cover!(queue.len() == 3, "three tasks on two levels");
-    kani::cover!(matches!(wr, PlayerNum::One) && matches!(wk, PlayerNum::One) && queue.len() == 3, "the same player moves at both levels");
+    kani::cover!(
+        matches!(wr, PlayerNum::One) && matches!(wk, PlayerNum::One) && queue.len() == 3,
+        "the same player moves at both levels"
+    );
     let mut seen = 0usize;
     let mut qi = 0;
     while qi < queue.len() {
         let (n, pc, pp) = queue[qi];
-        assert!(pc == 1.0, "C06 frontier: chance reach of a task changed without a chance node");
+        assert!(
+            pc == 1.0,
+            "C06 frontier: chance reach of a task changed without a chance node"
+        );
         let mut found = false;
         for i in 0..2 {
             let r1 = step(&root, i, [1.0, 1.0], s);
             if core::ptr::eq(n, &k1[i]) {
                 found = true;
-                assert!(pp[0] == r1[0] && pp[1] == r1[1], "C06 frontier: task reach is not its path's reach under the current strategies");
+                assert!(
+                    pp[0] == r1[0] && pp[1] == r1[1],
+                    "C06 frontier: task reach is not its path's reach under the current strategies"
+                );
             }
             let k2 = kids(&k1[i]).unwrap();
             for j in 0..2 {
